@@ -116,8 +116,9 @@ extern "C" void c06_for_step()
   bool safe0 = in_bool(0);
   int act = in_int(0); verif_assume(act >= 0 && act <= 3);
   body_action[0] = act;
-  /* representation invariant of a running loop: first/limit ordered, iterator inside, step sign fixed by direction */
-  verif_assume(mn <= mx && mn <= it && it <= mx && st != 0 && st != LONG_MIN);
+  /* representation invariant of a running loop: first/limit ordered, step sign fixed by direction. The iterator itself is
+     ARBITRARY: the body may have assigned it any integer (inside or outside [first, limit]) */
+  verif_assume(mn <= mx && st != 0 && st != LONG_MIN);
   verif_known(KF_FOR_NEXT_OVERFLOW, (st > 0 && it > LONG_MAX - st) || (st < 0 && it < LONG_MIN - st));
   Value& slot = ctx.storeVariable(sv.id(), Value(Integer(it)));
   FORStatement::RT* rt = new FORStatement::RT(); rt->min = mn; rt->max = mx; rt->step = st; rt->iterator = &slot; rt->safety_bak = safe0;
@@ -126,14 +127,15 @@ extern "C" void c06_for_step()
   const Statement* nx = nullptr;
   try { nx = f->doit(ctx); } catch (...) { verif_assert(false, "C01: re-entry of FOR raises nothing"); return; }
   VX_WITNESS();
-  /* exact: next value passes the limit (differences taken in uint64: mn <= it <= mx) */
-  bool would_leave = st > 0 ? ((unsigned long)mx - (unsigned long)it < (unsigned long)st) : ((unsigned long)it - (unsigned long)mn < 0UL - (unsigned long)st);
+  /* exact: the next value first+-k*step would pass the limit, or the body already moved the iterator past it */
+  bool would_leave = st > 0 ? (it > mx || (unsigned long)mx - (unsigned long)it < (unsigned long)st)
+                            : (it < mn || (unsigned long)it - (unsigned long)mn < 0UL - (unsigned long)st);
   if (would_leave) {
     verif_assert(nx == &nextstmt && body_runs == 0, "C06: loop is left when the next value would pass the limit");
     verif_assert(ctx.topControl() == nullptr && sv.safety() == safe0, "C06: leaving releases control and restores the iterator constraint");
   } else {
     verif_assert(body_runs == 1, "C06: body runs once per re-entry");
-    verif_assert(seen[0] == it + st && seen[0] >= mn && seen[0] <= mx, "C06: re-entry advances by step inside [first, limit] without wrapping");
+    verif_assert(seen[0] == it + st && (st > 0 ? seen[0] <= mx : seen[0] >= mn), "C06: re-entry advances by step and never past the limit (no wrap-around)");
     if (act == 0 || act == 2) {
       verif_assert(nx == f && ctx.topControl() == f && !ctx.continueCondition() && !ctx.breakCondition(), "C06: continue / normal end keeps the loop running and clears continue");
     } else {
